@@ -8,6 +8,7 @@ mod dev488;
 mod lockstep;
 mod scpimodel;
 mod props;
+mod refmodel;
 mod rig;
 
 use crate::core::*;
@@ -34,7 +35,10 @@ fn main() {
     let id: &'static str = Box::leak(args[1].clone().into_boxed_str());
     let ctx: &'static Ctx = Box::leak(Box::new(Ctx::new(id, tier)));
     let code = match id {
+        "C02" => props::c02::run(ctx),
+        "C03" => props::c03::run(ctx),
         "C12" => props::c12::run(ctx),
+        "C14" => props::c14::run(ctx),
         "C13" => props::c13::run(ctx),
         "C15" => props::c15::run(ctx),
         "C16" => props::c16::run(ctx),
@@ -55,6 +59,9 @@ fn replay_file(path: &str) -> i32 {
     let case = &v["case"];
     let run = |case: &serde_json::Value| -> Result<String, String> {
         match id.as_str() {
+            "C02" => props::c02::replay(case),
+            "C03" => props::c03::replay(case),
+            "C14" => props::c14::replay(case),
             "C12" => props::c12::replay(case).map_err(|m| format!("{}: {}", m.key, m.what)),
             "C13" => props::c13::replay(case).map_err(|m| format!("{}: {}", m.key, m.what)),
             "C15" => props::c15::replay(case).map_err(|m| format!("{}: {}", m.key, m.what)),
